@@ -189,8 +189,13 @@ type prodM struct {
 	cancelH    uint32
 	utxos      []utxo // unspent outputs on the deposit address
 	penalties  int64
-	deposited  int64 // everything ever sent to the deposit address from outside
-	withdrawn  int64 // everything that left the deposit address (inputs − change)
+	// how the history could have upset the lock bookkeeping (part of the signature of a
+	// negative lock, so that a different cause gets a different signature)
+	recancelled    bool  // a second cancel transaction was accepted
+	penAfterExpiry bool  // illegal evidence processed after StakeUntil had passed
+	penAfterCancel bool  // illegal evidence processed after the cancel transaction (DPoS v1)
+	deposited      int64 // everything ever sent to the deposit address from outside
+	withdrawn      int64 // everything that left the deposit address (inputs − change)
 }
 
 func (p *prodM) balance() int64 {
@@ -222,6 +227,18 @@ func (p *prodM) lock(h uint32) int64 {
 		return 0
 	}
 	return lockV1
+}
+
+func (p *prodM) cause() string {
+	switch {
+	case p.recancelled:
+		return "|after-second-cancel"
+	case p.penAfterExpiry:
+		return "|evidence-after-expiry"
+	case p.penAfterCancel:
+		return "|evidence-after-cancel"
+	}
+	return ""
 }
 
 func (p *prodM) avail(h uint32) int64 { return p.balance() - p.penalties - p.lock(h) }
@@ -680,6 +697,8 @@ func (in *inst) Apply(op string) *fail {
 			// accepts that for a producer whose deposit has been returned) does not re-lock
 			if !in.prod[p].cancelled {
 				in.prod[p].cancelled, in.prod[p].cancelH = true, in.h
+			} else {
+				in.prod[p].recancelled = true
 			}
 		}
 	case "pen":
@@ -697,6 +716,12 @@ func (in *inst) Apply(op string) *fail {
 		}
 		in.nv.Penalised++
 		in.prod[p].penalties += penaltyELA
+		if in.prod[p].v2 && in.h > in.prod[p].stakeUntil {
+			in.prod[p].penAfterExpiry = true
+		}
+		if in.prod[p].cancelled {
+			in.prod[p].penAfterCancel = true
+		}
 	case "ret":
 		return in.applyReturn(arg(1), f[2], len(f) > 3 && f[3] == "dup")
 	case "stk":
@@ -796,7 +821,7 @@ func (in *inst) applyReturn(p int, delta string, dup bool) *fail {
 		}
 		sig := "C28|deposit-overdraw|verdict|ReturnDepositCoin|" + how + "|" + prodClass(p)
 		if implLock < 0 {
-			sig += "|state-lock-negative"
+			sig += "|state-lock-negative" + m.cause()
 		}
 		return failf(sig, "producer %d: a deposit return taking %s out of the deposit address was accepted by SanityCheck+SpecialContextCheck although %s", p, ela(amount), pre)
 	}
@@ -976,7 +1001,7 @@ func (in *inst) invariants(after string, retProd int) *fail {
 			return failf("C28|negative|Producer.Penalty|after="+after+"|"+prodClass(p), "producer %d: penalty %s is negative", p, ela(pen))
 		}
 		if dep < 0 && soft == nil {
-			soft = failf("C28|negative|Producer.DepositAmount|"+prodClass(p), "producer %d: the locked part of the deposit is %s, so the available amount is %s although only %s sit on the deposit address and penalties are %s", p, ela(dep), ela(int64(pr.AvailableAmount())), ela(m.balance()), ela(pen))
+			soft = failf("C28|negative|Producer.DepositAmount|"+prodClass(p)+m.cause(), "producer %d: the locked part of the deposit is %s, so the available amount is %s although only %s sit on the deposit address and penalties are %s", p, ela(dep), ela(int64(pr.AvailableAmount())), ela(m.balance()), ela(pen))
 			soft.soft = true
 		}
 		// what left the deposit address never exceeds what was put in minus penalties minus the
@@ -1054,7 +1079,7 @@ func (in *inst) Digest() string {
 				su = -1
 			}
 		}
-		fmt.Fprintf(&sb, "s%d i%d t%d d%d p%d a%d c%d u%d v%d m[%d %d %v]", pr.State(), pr.Identity(), pr.TotalAmount(), pr.DepositAmount(), pr.Penalty(), age, cage, su, pr.DposV2Votes(), m.penalties, m.lock(in.h), m.cancelled)
+		fmt.Fprintf(&sb, "s%d i%d t%d d%d p%d a%d c%d u%d v%d m[%d %d %v %v %v %v]", pr.State(), pr.Identity(), pr.TotalAmount(), pr.DepositAmount(), pr.Penalty(), age, cage, su, pr.DposV2Votes(), m.penalties, m.lock(in.h), m.cancelled, m.recancelled, m.penAfterExpiry, m.penAfterCancel)
 		vals := make([]int64, 0, len(m.utxos))
 		for _, u := range m.utxos {
 			vals = append(vals, u.value)
